@@ -10,7 +10,8 @@ m=json.load(open('$d/meta.json'))
 print(' '.join(re.findall(r'\bC\d\d\b', m['ran'].split('patch.diff')[-1])))")
 wt=/tmp/repo-reg-$id
 git -C /repo worktree add -q --detach $wt HEAD 2>/dev/null || { echo "$id worktree-failed"; exit 0; }
-git -C $wt apply $d/patch.diff 2>/dev/null || { echo "$id patch-does-not-apply"; git -C /repo worktree remove --force $wt; exit 0; }
+p=$d/patch.diff; [ -f $d/patch_rebased.diff ] && p=$d/patch_rebased.diff   # re-based after a later fix: commit touched the same lines
+git -C $wt apply $p 2>/dev/null || { echo "$id patch-does-not-apply"; git -C /repo worktree remove --force $wt; exit 0; }
 out="$id"
 for c in $checks; do
   VERIF_REPO=$wt VERIF_WORKERS=${VERIF_WORKERS:-4} /verif/bin/gosym check $c --tier quick > /tmp/reg_${id}_$c.log 2>&1
